@@ -17,6 +17,9 @@ pub enum Trigger {
     GoalSamplerError,
     GoalBiasOutOfRange,
     EmptyStartStates,
+    /// other numeric parameters outside their natural range (negative build time, radius, step):
+    /// these do not panic on the unchanged tree and must not start to
+    OtherParameterOutOfRange,
 }
 impl Trigger {
     fn name(&self) -> &'static str {
@@ -26,6 +29,7 @@ impl Trigger {
             Trigger::GoalSamplerError => "goal_sampler_error",
             Trigger::GoalBiasOutOfRange => "goal_bias_out_of_range",
             Trigger::EmptyStartStates => "empty_start_states",
+            Trigger::OtherParameterOutOfRange => "other_parameter_out_of_range",
         }
     }
 }
@@ -49,7 +53,7 @@ pub fn base_history(r: &mut Sm, idx: usize) -> History {
     if planner != PKind::Prm {
         params.goal_bias = *r.pick(&[0.05, 0.2, 0.5]);
     }
-    History { problems: vec![p1, p2], params, prm_samples: 5 + r.below(60) as u64, ops: vec![], uniform_fail_at: None, starts_override: None, script: None }
+    History { problems: vec![p1, p2], params, prm_samples: 5 + r.below(60) as u64, ops: vec![], uniform_fail_at: None, starts_override: None, script: None, prm_build_override: None }
 }
 
 pub fn op_alphabet(kind: PKind, r: &mut Sm) -> Vec<Op> {
@@ -271,6 +275,19 @@ pub fn run(tier: Tier, seed: u64) -> i32 {
                     with_kit!(h.problems[0].spec, K, kit => run_one::<K>(&ctx, &mut b, &kit, &h, Trigger::GoalBiasOutOfRange));
                 }
             }
+            // negative / zero numeric parameters: no error is required, but no panic either
+            for v in [-1.0, -0.0, -1e-300, -1e9, 0.0] {
+                let mut h = base.clone();
+                if prm {
+                    h.params.connection_radius = if v == 0.0 { h.params.connection_radius } else { v };
+                    h.prm_build_override = Some(v);
+                } else {
+                    h.params.max_distance = v;
+                    h.params.search_radius = v;
+                }
+                h.ops.truncate(2 + prm as usize);
+                with_kit!(h.problems[0].spec, K, kit => run_one::<K>(&ctx, &mut b, &kit, &h, Trigger::OtherParameterOutOfRange));
+            }
             let mut h = base.clone();
             h.starts_override = Some(vec![]);
             with_kit!(h.problems[0].spec, K, kit => run_one::<K>(&ctx, &mut b, &kit, &h, Trigger::EmptyStartStates));
@@ -301,7 +318,7 @@ pub fn run(tier: Tier, seed: u64) -> i32 {
     for p in ALL_PLANNERS {
         ctx.require(&format!("histories[{}]", p.name()));
     }
-    for k in ["model[solve-uninitialised]", "model[query-before-roadmap]", "model[construct-uninitialised]", "model[invalid-start]", "model[path]", "trigger[uniform_sampler_error]", "trigger[goal_sampler_error]", "trigger[goal_bias_out_of_range]", "trigger[empty_start_states]", "w1_runs_under_panic_monitor"] {
+    for k in ["model[solve-uninitialised]", "model[query-before-roadmap]", "model[construct-uninitialised]", "model[invalid-start]", "model[path]", "trigger[uniform_sampler_error]", "trigger[goal_sampler_error]", "trigger[goal_bias_out_of_range]", "trigger[empty_start_states]", "trigger[other_parameter_out_of_range]", "w1_runs_under_panic_monitor"] {
         ctx.require(k);
     }
     ctx.finish(
@@ -326,6 +343,7 @@ pub fn replay(v: &Value, file: &str) -> i32 {
             "goal_sampler_error" => Trigger::GoalSamplerError,
             "goal_bias_out_of_range" => Trigger::GoalBiasOutOfRange,
             "empty_start_states" => Trigger::EmptyStartStates,
+            "other_parameter_out_of_range" => Trigger::OtherParameterOutOfRange,
             _ => Trigger::None,
         };
         with_kit!(h.problems[0].spec, K, kit => run_one::<K>(&ctx, &mut b, &kit, &h, trigger));
